@@ -380,6 +380,7 @@ func (x *runner) ibbReplay(acts []ibbAction, class string) {
 		x.res.Fail("C06/harness/setup", err.Error(), nil)
 		return
 	}
+	setCurrent(ibbCase{Mode: "ibb", Actions: acts})
 	for _, a := range acts {
 		run.do(a)
 		if a.Op == "snap" && !run.failed {
@@ -432,6 +433,7 @@ func (x *runner) ibbWalk(r *hx.Rand, steps int) {
 			pick -= w
 		}
 		acts = append(acts, a)
+		setCurrent(ibbCase{Mode: "ibb", Actions: acts})
 		run.do(a)
 		if a.Op == "snap" && !run.failed {
 			x.ibbEmit(run, acts, "snapshot")
